@@ -195,7 +195,7 @@ def c10():
     chk = Check("C10", "model_checking")
     hist = "MC_Hist_T.tla" if chk.tier == "thorough" else "MC_Hist_Q.tla"
     c = {"NObs": 3, "ObsKinds": "<- Kinds3", "InstFamily": "<- FamTiny", "FiltFamily": "<- Filt"}
-    chk.mc(hist, "SpecObservers", c,
+    chk.mc(hist, "SpecObsQueries", c,
            ["Inv_Notifications", "Inv_NotifyInOrder", "Inv_SeesPostState", "Inv_Singleton", "Inv_History"],
            constraints=["Depth8" if chk.tier == "quick" else "Depth9"], timeout=3000)
     behs, _ = tlc_behaviours("c10", fam="FamB", filt="FiltB", nobs=4, kinds="K4", obsops=5, faults=1,
